@@ -263,6 +263,10 @@ def ev(v, val, hooks=None):
             return [ev(x, val, hooks) for x in a]
         if op == 'set':
             return set(ev(x, val, hooks) for x in a)
+        if op == 'dict' and all(isinstance(x, T) and x.op == 'item' and
+                                len(x.args) == 2 for x in a):
+            return {ev(x.args[0], val, hooks): ev(x.args[1], val, hooks)
+                    for x in a}
         if op == 'raises':
             try:
                 ev(a[0], val, hooks)
